@@ -58,6 +58,16 @@ let pr_result (a : api) (ver : int) (r : result) : string =
       | ASaslAuthenticate -> pr_val (fld 2 v)
       | _ -> pr_val v)
 
+(* the versions Conn offers to apiVersionMap.negotiate per API (conn.go); the broker's max is
+   pinned to the case's version by the harness, and its fake checks the version actually sent *)
+let supported = function
+  | AProduce -> [2; 3; 7] | AFetch -> [2; 5; 10] | AMetadata -> [1; 6] | AJoinGroup -> [1; 2]
+  | ACreateTopics -> [0; 1; 2] | ADeleteTopics -> [0; 1] | ASaslHandshake -> [0; 1] | _ -> []
+let negotiate_ok api ver =
+  match supported api with
+  | [] -> true
+  | l -> int_of_z (negotiate (z_of_int ver) (List.map z_of_int l)) = ver
+
 let rec take k l = if k <= 0 then [] else match l with [] -> [] | x :: t -> x :: take (k - 1) t
 
 let eval (a : string list) : string =
@@ -76,6 +86,7 @@ let eval (a : string list) : string =
     let toks = List.map (fun (api, ver, o) ->
       let ((st', r), s') = conn_do !st o !s in
       st := st'; s := s';
+      if not (negotiate_ok api ver) then "NEGOTIATE-MISMATCH" else
       pr_result api ver r ^ "~" ^ (if st'.closed then "1" else "0")) ops in
     String.concat " " toks
   | _ -> "BADCASE"
